@@ -141,13 +141,42 @@ def itself_or_copy(eng, a, dt, what):
     used(eng, what + ": the 1-D array ITSELF when it is contiguous and of the dtype asked for, else a fresh contiguous copy")
     if not dtype_already(eng, a, dt):
         return _converted(eng, a, dt)
-    if _decide(eng, is_contiguous(eng, a)):
+    if _decide(eng, is_contiguous(eng, a), a):
         return a
     return _copy(eng, a, dt)
 
 
-def _decide(eng, c):
-    return c if isinstance(c, bool) else bool(eng.branch(eng.sbool(c)))
+def _mentions(term, consts):
+    seen, stack = set(), [term]
+    while stack:
+        x = stack.pop()
+        if x.get_id() in seen:
+            continue
+        seen.add(x.get_id())
+        if any(x.eq(b) for b in consts):
+            return True
+        if z3.is_quantifier(x):
+            stack.append(x.body())
+        elif z3.is_app(x):
+            stack.extend(x.children())
+    return False
+
+
+def _decide(eng, c, a=None):
+    """fork on the layout question.  Inside the element of a comprehension over a symbolic sequence (evaluated once for an arbitrary
+    position, where a fork is refused) the question is still decidable by a fork when neither the question nor the array mentions the
+    position variable (`eng.pure_bound`, set by the element evaluator): the answer is the same at every position"""
+    if isinstance(c, bool):
+        return c
+    pure = getattr(eng, "pure_mode", 0)
+    bound = getattr(eng, "pure_bound", None)
+    if pure and bound and a is not None and isinstance(a, SArr) and not _mentions(c, bound) and not _mentions(a.arr, bound) and not _mentions(zint(a.n), bound):
+        eng.pure_mode = 0
+        try:
+            return bool(eng.branch(eng.sbool(c)))
+        finally:
+            eng.pure_mode = pure
+    return bool(eng.branch(eng.sbool(c)))
 
 
 def _order(kwargs, args, pos, allowed="CFAK"):
@@ -275,7 +304,7 @@ def _m_ravel(eng, recv, args, kwargs):
         raise Unsupported("ravel form")
     o = _order(kwargs, args, 0) or "C"
     used(eng, "ravel of a 1-D array (any order): a view when it is contiguous, else a fresh copy")
-    if _decide(eng, is_contiguous(eng, recv)):
+    if _decide(eng, is_contiguous(eng, recv), recv):
         return _view(eng, recv)
     return _copy(eng, recv)
 
